@@ -34,6 +34,8 @@ OutsOf(r) ==
          ELSE [i \in 1..Len(r.as) |-> Ident(r.as[i], r.name, r.group)])
     ELSE IF r.shape \in {"multi", "multierr"} THEN
         <<Ident(SlotType(r.slot), r.name, r.group), Ident(SlotType(r.slot2), NONE, r.group)>>
+    ELSE IF r.shape = "ifacerr" THEN    \* func(...) (I0, error): registered under the interface type itself
+        <<Ident("I0", r.name, r.group)>>
     ELSE IF r.shape = "outkn" THEN      \* Out{A *Sa; B *Sb `name:"k"`}
         <<Ident(SlotType(r.slot), NONE, NONE), Ident(SlotType(r.slot2), "k", NONE)>>
     ELSE IF r.shape = "outkg" THEN      \* Out{A *Sa; B *Sb `group:"g"`}
@@ -408,6 +410,7 @@ AllClosed(st, ids) == \A i \in ids : st.inst[i].closed >= 1
 FailClassOK(c, err) ==
     IF c.failed = "err" THEN {"ctorError", "cause"} \subseteq err
     ELSE IF c.failed = "panic" THEN {"ctorPanic", "panicval"} \subseteq err
+    ELSE IF c.failed = "unil" THEN "validation" \in err       \* an untyped nil result is refused as invalid
     ELSE TRUE
 
 \* a failing construction of an OPTIONAL dependency is swallowed by the container (the field stays zero):
@@ -415,7 +418,7 @@ FailClassOK(c, err) ==
 OptTargets(cfg) == UNION {UNION {IF Reg(cfg, id).params[j].opt THEN ParamTargets(cfg, Reg(cfg, id).params[j]) ELSE {}
                                  : j \in DOMAIN Reg(cfg, id).params} : id \in LiveRegIds(cfg)}
 OptReach(cfg) == OptTargets(cfg) \cup UNION {TransDeps(cfg, id) : id \in OptTargets(cfg)}
-Failed(c) == c.failed \in {"err", "panic"}
+Failed(c) == c.failed \in {"err", "panic", "unil"}
 FailureReported(st, c, err) ==
     Failed(c) => /\ (err # {} \/ c.failedReg \in OptReach(st.cfg))
                  /\ (err # {} => FailClassOK(c, err))
@@ -472,7 +475,7 @@ GuardsRetResolve(st, e) ==
                  \A id \in VoidRegs(cfg, c.k) : IF LifeOf(cfg, id) = "transient" THEN c.ctors >= 1 ELSE c.ctors = 0, NONE)}
          ELSE {G("unregistered_not_found", {"C04", "C15", "C17"}, "notfound" \in err, NONE)})
     ELSE IF ~HasProvider(cfg, c.t, c.k) THEN
-        {G("unregistered_not_found", {"C04", "C15", "C17"}, "notfound" \in err, NONE)}
+        {G("unregistered_not_found", IF c.t \in Builtins THEN {"C18", "C15"} ELSE {"C04", "C15", "C17"}, "notfound" \in err, NONE)}
     ELSE
     LET t == ProviderOf(cfg, c.t, c.k)
         life == LifeOf(cfg, t[1])
@@ -490,7 +493,9 @@ GuardsRetResolve(st, e) ==
            (Len(e.res.ids) = 1 /\ e.res.ids[1] \notin st.handed /\ e.res.ids[1] \in st.fresh), NONE),
      G("transients_all_consumed", {"C03"}, err = {} =>
            st.fresh \ Siblings(st, Range(e.res.ids)) = {}, NONE),
-     G("failed_resolve_returns_nothing", {"C15"}, err # {} => e.res.k = "none", NONE)}
+     G("failed_resolve_returns_nothing", {"C15"}, err # {} => e.res.k = "none", NONE),
+     \* a retry after a failure behaves like a first attempt: a success carries an instance of the registration
+     G("success_carries_an_instance", {"C15"}, err = {} => (e.res.k = "inst" /\ Len(e.res.ids) = 1), NONE)}
 
 GuardsRetGroup(st, e) ==
     LET cfg == st.cfg
@@ -577,7 +582,8 @@ AbuseTable ==
      scope_get_nil_type |-> AE({"typeNil"}), scope_getkeyed_nil_key |-> AE({"keyNil"}), scope_getkeyed_ok |-> AOK,
      scope_close |-> AOK, scope_close_again |-> AOK,
      closed_scope_get |-> AE({"scopeDisposed"}), closed_scope_getkeyed |-> AE({"scopeDisposed"}),
-     closed_scope_getgroup |-> AE({"scopeDisposed"}), closed_scope_createscope |-> AE({"scopeDisposed"}),
+     closed_scope_getgroup |-> AE({"scopeDisposed"}), closed_scope_getgroup_empty |-> AE({"scopeDisposed"}),
+     closed_scope_resolvegroup_empty |-> AE({"scopeDisposed"}), closed_provider_getgroup_empty |-> AE({"providerDisposed"}), closed_scope_createscope |-> AE({"scopeDisposed"}),
      closed_scope_resolve |-> AE({"scopeDisposed"}), provider_close |-> AOK, provider_close_again |-> AOK,
      closed_provider_get |-> AE({"providerDisposed"}), closed_provider_getkeyed |-> AE({"providerDisposed"}),
      closed_provider_getgroup |-> AE({"providerDisposed"}), closed_provider_createscope |-> AE({"providerDisposed"}),
